@@ -1,3 +1,4 @@
+import Op2Proofs.GenTactics
 import Op2Proofs.Tileset.Write
 import Op2Proofs.Props.C11_Bmp
 import Op2Model.Gen.Layout
@@ -209,11 +210,14 @@ theorem C09_gen_layout :
     ts_TagPpal = tagPPAL.map UInt8.toNat ∧ ts_TagPpalHead = tagHead.map UInt8.toNat ∧ ts_TagData = tagData.map UInt8.toNat ∧
     size_Color = 4 ∧ off_Color_red = 0 ∧ off_Color_green = 1 ∧ off_Color_blue = 2 ∧ off_Color_alpha = 3 := by decide
 
+open Op2.GenTactics in
 /-- `CalculatePixelHeaderLength` and `CalculatePbmpSectionSize` as translated from the current source (clang AST; `sizeof`s and
     constants are the ones measured in `Gen/Layout`) are the model's section-length formulas, for every 32-bit height -/
 theorem C09_gen_section_sizes (h : Nat) (hh : h < W32) :
+    (Gen.Formulas.gen_CalculatePixelHeaderLength_translated && Gen.Formulas.gen_CalculatePbmpSectionSize_translated) = true →
     Gen.Formulas.gen_CalculatePixelHeaderLength (h : Int) = ((pixelHeaderLength h : Nat) : Int) ∧
     Gen.Formulas.gen_CalculatePbmpSectionSize (h : Int) = ((pbmpSectionSize h : Nat) : Int) := by
+  gen_guard =>
   have e32 : ((2 : Int) ^ 32) = 4294967296 := by decide
   have e64 : ((2 : Int) ^ 64) = 18446744073709551616 := by decide
   unfold Gen.Formulas.gen_CalculatePbmpSectionSize Gen.Formulas.gen_CalculatePixelHeaderLength Gen.Formulas.castU
